@@ -52,11 +52,24 @@ deriving Repr, Inhabited
 def TypeDef.name : TypeDef → String
   | .scalar n => n | .enum n _ => n | .object n _ _ => n | .interface n _ => n | .union n _ => n | .input n _ => n
 
+structure DirectiveDef where
+  name : String
+  args : List ArgDef
+  locations : List String
+deriving Repr, Inhabited
+
+def builtinDirectives : List DirectiveDef :=
+  [⟨"skip", [⟨"if", .nonNull (.named "Boolean"), none⟩], ["FIELD", "FRAGMENT_SPREAD", "INLINE_FRAGMENT"]⟩,
+   ⟨"include", [⟨"if", .nonNull (.named "Boolean"), none⟩], ["FIELD", "FRAGMENT_SPREAD", "INLINE_FRAGMENT"]⟩,
+   ⟨"deprecated", [⟨"reason", .named "String", some (.str "Deprecated")⟩], ["FIELD_DEFINITION", "ENUM_VALUE"]⟩,
+   ⟨"nonIntrospectable", [], ["FIELD_DEFINITION", "SCHEMA"]⟩]
+
 structure Schema where
   types : List TypeDef
   queryType : String
   mutationType : Option String
   subscriptionType : Option String
+  directives : List DirectiveDef := builtinDirectives
 deriving Repr, Inhabited
 
 namespace Schema
